@@ -123,6 +123,8 @@ type histOpts struct {
 	bigTok   int
 	clockMs  int
 	cbExtras int // further parameters in the provider's authorization responses
+	// judgeReturn switches on the return-URL clause of C03/C13 in the history machine
+	judgeReturn bool
 }
 
 func genHistOpts(c *sim.Case) histOpts {
@@ -177,6 +179,7 @@ func (ho histOpts) build(c *sim.Case, mons ...monitor) *H {
 	}
 	h := newH(c, w, 3, mons...)
 	h.crowdCookies(ho.cookies)
+	h.judgeReturn = ho.judgeReturn
 	return h
 }
 
